@@ -801,6 +801,212 @@ const TEXT_TYPES: [(&str, u32); 19] = [
 
 // ---------------------------------------------------------------- replay / run
 
+/// E: the field value types of `lorawan::types` that applications hand to the creators and read from the
+/// parsed commands (ChannelMask<2>/<9>, DataRateRange, DLSettings, Redundancy, Frequency, DR): constructors,
+/// accessors and in-place edits against the LoRaWAN field layouts. `a`, `b` select the value and the edit.
+fn check_value_type(ty: &str, a: u64, b: u64) -> Result<(), Failure> {
+    use lorawan::types::{ChannelMask, DLSettings, DataRateRange, Frequency, Redundancy, DR};
+    let case = json!({"kind":"value_type","type":ty,"a":format!("{a:#x}"),"b":format!("{b:#x}")});
+    let bad = |what: String| Err(Failure::new("value-type", case.clone(), what).with_fp(&format!("value-type/{ty}")));
+    fn mask_ops<const N: usize>(bytes: [u8; N], extra: [u8; 3], b: u64) -> Result<(), String> {
+        let bit = |m: &[u8], c: usize| m[c / 8] >> (c % 8) & 1 == 1;
+        // new(): any slice of at least N octets is accepted and its first N octets are the mask; shorter ones are refused
+        let mut long = bytes.to_vec();
+        long.extend_from_slice(&extra);
+        for len in 0..=N + 3 {
+            match ChannelMask::<N>::new(&long[..len]) {
+                Ok(m) => {
+                    if len < N {
+                        return Err(format!("new() accepted {len} octets for a {N}-octet mask"));
+                    }
+                    if m.as_ref() != &bytes[..] {
+                        return Err(format!("new(&{}[..{len}]) holds {}", hex(&long), hex(m.as_ref())));
+                    }
+                }
+                Err(_) => {
+                    if len >= N {
+                        return Err(format!("new() refused {len} octets for a {N}-octet mask"));
+                    }
+                }
+            }
+        }
+        let m = ChannelMask::<N>::from(bytes);
+        let raw = ChannelMask::<N>::new_from_raw(&long);
+        if m != raw || m.as_ref() != &bytes[..] {
+            return Err(format!("from / new_from_raw / as_ref disagree: {} vs {}", hex(m.as_ref()), hex(raw.as_ref())));
+        }
+        for i in 0..N {
+            if m.get_index(i) != bytes[i] {
+                return Err(format!("get_index({i}) = {:#x}, octet is {:#x}", m.get_index(i), bytes[i]));
+            }
+        }
+        for c in 0..8 * N + 16 {
+            match m.is_enabled(c) {
+                Ok(e) => {
+                    // beyond the mask nothing is enabled (the crate refuses such an index; Ok(false) would say the same)
+                    if (c >= 8 * N && e) || (c < 8 * N && e != bit(&bytes, c)) {
+                        return Err(format!("is_enabled({c}) = Ok({e}) on mask {}", hex(&bytes)));
+                    }
+                }
+                Err(_) => {
+                    if c < 8 * N {
+                        return Err(format!("is_enabled({c}) refused on a {N}-octet mask"));
+                    }
+                }
+            }
+        }
+        let st16: [bool; 16] = m.statuses();
+        for (c, e) in st16.iter().enumerate() {
+            if *e != bit(&bytes, c) {
+                return Err(format!("statuses::<16>()[{c}] = {e} on mask {}", hex(&bytes)));
+            }
+        }
+        if N == 9 {
+            let st72: [bool; 72] = m.statuses();
+            for (c, e) in st72.iter().enumerate() {
+                if *e != bit(&bytes, c) {
+                    return Err(format!("statuses::<72>()[{c}] = {e} on mask {}", hex(&bytes)));
+                }
+            }
+        }
+        // in-place edits touch exactly the addressed channel / bank
+        let c = (b as usize >> 1) % (8 * N);
+        let set = b & 1 == 1;
+        let mut e = m.clone();
+        e.set_channel(c, set);
+        let mut want = bytes;
+        if set {
+            want[c / 8] |= 1 << (c % 8);
+        } else {
+            want[c / 8] &= !(1 << (c % 8));
+        }
+        if e.as_ref() != &want[..] {
+            return Err(format!("set_channel({c}, {set}) on {} gives {} (want {})", hex(&bytes), hex(e.as_ref()), hex(&want)));
+        }
+        let (bi, bv) = ((b as usize >> 8) % N, (b >> 16) as u8);
+        let mut e = m.clone();
+        e.set_bank(bi, bv);
+        let mut want = bytes;
+        want[bi] = bv;
+        if e.as_ref() != &want[..] {
+            return Err(format!("set_bank({bi}, {bv:#x}) on {} gives {} (want {})", hex(&bytes), hex(e.as_ref()), hex(&want)));
+        }
+        Ok(())
+    }
+    let r = catch(|| -> Result<(), String> {
+        match ty {
+            "ChannelMask2" => mask_ops::<2>([a as u8, (a >> 8) as u8], [(a >> 16) as u8, (a >> 24) as u8, (a >> 32) as u8], b),
+            "ChannelMask9" => {
+                let mut rng = SplitMix::new(a);
+                let mut bytes = [0u8; 9];
+                for (i, x) in bytes.iter_mut().enumerate() {
+                    // sparse, dense and random octets, so that single channels and whole banks both occur
+                    *x = match (a >> (2 * i)) & 3 {
+                        0 => 0,
+                        1 => 0xFF,
+                        2 => 1 << (rng.next_u64() % 8),
+                        _ => rng.next_u64() as u8,
+                    };
+                }
+                mask_ops::<9>(bytes, [rng.next_u64() as u8, 0, 0xFF], b)
+            }
+            "DataRateRange" => {
+                let byte = a as u8;
+                let (min, max) = (byte & 0x0F, byte >> 4);
+                let ok = max >= min;
+                match DataRateRange::new(byte) {
+                    Ok(r) => {
+                        if !ok || r.raw_value() != byte || r.min_data_rate() != min || r.max_data_rate() != max {
+                            return Err(format!("new({byte:#x}) = raw {:#x} min {} max {}", r.raw_value(), r.min_data_rate(), r.max_data_rate()));
+                        }
+                    }
+                    Err(_) => {
+                        if ok {
+                            return Err(format!("new({byte:#x}) refused (min {min} <= max {max})"));
+                        }
+                    }
+                }
+                if DataRateRange::can_build_from(byte).is_ok() != ok {
+                    return Err(format!("can_build_from({byte:#x}) disagrees with min {min} <= max {max}"));
+                }
+                for r in [DataRateRange::new_from_raw(byte), DataRateRange::from(byte)] {
+                    if r.raw_value() != byte || r.min_data_rate() != min || r.max_data_rate() != max {
+                        return Err(format!("raw {byte:#x} reads back raw {:#x} min {} max {}", r.raw_value(), r.min_data_rate(), r.max_data_rate()));
+                    }
+                }
+                let r = DataRateRange::new_range(DR::from(min), DR::from(max));
+                if r.raw_value() != byte {
+                    return Err(format!("new_range({min}, {max}) = {:#x} (want {byte:#x})", r.raw_value()));
+                }
+                Ok(())
+            }
+            "DLSettings" => {
+                let byte = a as u8;
+                for d in [DLSettings::new(byte), DLSettings::from(byte)] {
+                    if d.raw_value() != byte || d.rx1_dr_offset() != (byte >> 4) & 7 || d.rx2_data_rate() as u8 != byte & 0x0F {
+                        return Err(format!("DLSettings {byte:#x}: raw {:#x} rx1_dr_offset {} rx2_data_rate {}", d.raw_value(), d.rx1_dr_offset(), d.rx2_data_rate() as u8));
+                    }
+                }
+                Ok(())
+            }
+            "Redundancy" => {
+                let byte = a as u8;
+                for d in [Redundancy::new(byte), Redundancy::from(byte)] {
+                    if d.raw_value() != byte || d.channel_mask_control() != (byte >> 4) & 7 || d.number_of_transmissions() != byte & 0x0F {
+                        return Err(format!("Redundancy {byte:#x}: raw {:#x} cntl {} nbtrans {}", d.raw_value(), d.channel_mask_control(), d.number_of_transmissions()));
+                    }
+                }
+                Ok(())
+            }
+            "DR" => {
+                let (v, sub) = (a as u8, b as u8);
+                let d = DR::from(v);
+                if d as u8 != v & 0x0F {
+                    return Err(format!("DR::from({v}) = {}", d as u8));
+                }
+                let o = d.offset_sub(sub);
+                if o as u8 != (v & 0x0F).saturating_sub(sub) {
+                    return Err(format!("DR{}.offset_sub({sub}) = DR{}", v & 0x0F, o as u8));
+                }
+                Ok(())
+            }
+            "types::Frequency" => {
+                let wire = [a as u8, (a >> 8) as u8, (a >> 16) as u8, (a >> 24) as u8, (a >> 32) as u8];
+                let hz = (a as u32 & 0xFF_FFFF) * 100;
+                for len in 0..=5usize {
+                    match Frequency::new(&wire[..len]) {
+                        Some(f) => {
+                            if len != 3 || f.value() != hz || f.as_ref() != &wire[..3] {
+                                return Err(format!("Frequency::new(&{}[..{len}]) = {} Hz", hex(&wire), f.value()));
+                            }
+                        }
+                        None => {
+                            if len == 3 {
+                                return Err("Frequency::new refused three octets".into());
+                            }
+                        }
+                    }
+                }
+                let three: [u8; 3] = [wire[0], wire[1], wire[2]];
+                let f = Frequency::from(&three);
+                let g = Frequency::new_from_raw(&three);
+                if f.value() != hz || g.value() != hz || f != g {
+                    return Err(format!("Frequency of {} = {} / {} Hz (want {hz})", hex(&three), f.value(), g.value()));
+                }
+                Ok(())
+            }
+            _ => Ok(()),
+        }
+    });
+    match r {
+        Ok(Ok(())) => Ok(()),
+        Ok(Err(what)) => bad(what),
+        Err(pm) => Err(Failure::panic(case.clone(), &pm)),
+    }
+}
+
+const VALUE_TYPES: [&str; 7] = ["ChannelMask2", "ChannelMask9", "DataRateRange", "DLSettings", "Redundancy", "DR", "types::Frequency"];
+
 fn parse_hex_u128(s: &str) -> u128 {
     u128::from_str_radix(s.trim_start_matches("0x"), 16).unwrap_or(0)
 }
@@ -833,6 +1039,7 @@ pub fn replay(case: &Value, kf: &KnownFindings) -> Result<(), Failure> {
             }
             check_sequence(&cmds, &seq, case["delta"].as_i64().unwrap_or(0) as i32)
         }
+        Some("value_type") => check_value_type(case["type"].as_str().unwrap_or(""), parse_hex_u128(case["a"].as_str().unwrap_or("0")) as u64, parse_hex_u128(case["b"].as_str().unwrap_or("0")) as u64),
         Some("text") => check_text(case["type"].as_str().unwrap_or(""), parse_hex_u128(case["value"].as_str().unwrap_or("0"))),
         _ => Err(Failure::new("bad-replay", case.clone(), "unknown case kind")),
     }
@@ -848,7 +1055,7 @@ fn boundary_values(bits: u32, rng: &mut SplitMix, n_random: usize) -> Vec<u64> {
 }
 
 pub fn run(ctx: &mut Ctx) {
-    ctx.rule = "per command of the six sets with a creator: every setter once on a fresh creator, in every/random order; field values exhaustive for setter arguments <= 16 bits (one field swept, the others at random baselines), boundary + random for wider ones, out-of-range arguments included; variable-length builders (EchoIncPayloadAns 0..=241 bytes, McGroupStatusAns 0..=4 items incl. out-of-range ids with the count setter at every position among the pushes, McGroupSetupReq with key wrap checked with the independent AES, RxAppCntAns all 65536, DutVersionsAns); sequences of 1..=10 commands through mac_commands_len/build_mac_commands with exact/short/long buffers; text forms: all 65536 DevNonce, boundary + random values of the other 17 identifier/key types. Non-trivial: any non-default field value or out-of-range argument; distinct by hash of the case".into();
+    ctx.rule = "per command of the six sets with a creator: every setter once on a fresh creator, in every/random order; field values exhaustive for setter arguments <= 16 bits (one field swept, the others at random baselines), boundary + random for wider ones, out-of-range arguments included; variable-length builders (EchoIncPayloadAns 0..=241 bytes, McGroupStatusAns 0..=4 items incl. out-of-range ids with the count setter at every position among the pushes, McGroupSetupReq with key wrap checked with the independent AES, RxAppCntAns all 65536, DutVersionsAns); sequences of 1..=10 commands through mac_commands_len/build_mac_commands with exact/short/long buffers; text forms: all 65536 DevNonce, boundary + random values of the other 17 identifier/key types; field value types of lorawan::types (ChannelMask<2> all 65536 masks and ChannelMask<9> random/sparse/dense masks: new() on slices of N-0..N+3 octets, from / new_from_raw / as_ref / get_index, is_enabled for every index up to 8N+16, statuses, set_channel and set_bank edits; all 256 DataRateRange / DLSettings / Redundancy octets; DR x offset_sub; types::Frequency on 0..5 octets). Non-trivial: any non-default field value or out-of-range argument; distinct by hash of the case".into();
     ctx.assumptions = vec![
         "expected accessor values come from the LoRaWAN 1.0.x / TS005 / TS009 field layouts (little-endian multi-octet fields, MaxEIRP table), not from the crate".into(),
         "when a setter is called again on the same creator the value set last is the one in force; a call that is refused (Err) leaves the field as it was".into(),
@@ -1105,6 +1312,70 @@ pub fn run(ctx: &mut Ctx) {
                     Ok(()) => {
                         if v != 0 {
                             st.nt_hash(fnv64(format!("{ty}{v:x}").as_bytes()));
+                        }
+                    }
+                    Err(f) => st.fail(f),
+                }
+            }
+        }
+    });
+    // ---- E: field value types (lorawan::types)
+    ctx.parallel(|ti, n, st| {
+        let mut rng = SplitMix::new(seed ^ 0xC19E ^ ((ti as u64) << 32));
+        for (k, ty) in VALUE_TYPES.iter().enumerate() {
+            if k % n != ti {
+                continue;
+            }
+            let mut cases: Vec<(u64, u64)> = Vec::new();
+            match *ty {
+                "ChannelMask2" => {
+                    for a in 0..=0xFFFFu64 {
+                        cases.push((a | (rng.next_u64() << 16), rng.next_u64()));
+                    }
+                    // every single-channel edit on a few fixed masks
+                    for m in [0u64, 0xFFFF, 0x00FF, 0x8001, 0x5AA5] {
+                        for b in 0..32u64 {
+                            cases.push((m, b | ((b % 2) << 8) | (rng.next_u64() & 0xFF_0000)));
+                        }
+                    }
+                }
+                "ChannelMask9" => {
+                    for _ in 0..if thorough { 400_000 } else { 40_000 } {
+                        cases.push((rng.next_u64(), rng.next_u64()));
+                    }
+                    for b in 0..144u64 {
+                        cases.push((0, b | ((b % 9) << 8) | 0xA5_0000));
+                        cases.push((0x1_5555, b | ((b % 9) << 8)));
+                    }
+                }
+                "DataRateRange" | "DLSettings" | "Redundancy" => {
+                    for a in 0..=0xFFu64 {
+                        cases.push((a, 0));
+                    }
+                }
+                "DR" => {
+                    for a in 0..=0xFFu64 {
+                        for b in 0..=0xFFu64 {
+                            cases.push((a, b));
+                        }
+                    }
+                }
+                _ => {
+                    for a in [0u64, 1, 0xFF, 0x100, 0xFFFF, 0x1_0000, 0xFF_FFFF, 0x84_75A0, 0x1_00FF_FFFF, 0xFF_FFFF_FFFF] {
+                        cases.push((a, 0));
+                    }
+                    for _ in 0..if thorough { 1_000_000 } else { 100_000 } {
+                        cases.push((rng.next_u64() & 0xFF_FFFF_FFFF, 0));
+                    }
+                }
+            }
+            for (a, b) in cases {
+                st.eval();
+                st.class("value-type");
+                match check_value_type(ty, a, b) {
+                    Ok(()) => {
+                        if a != 0 {
+                            st.nt_hash(fnv64(format!("{ty}{a:x}/{b:x}").as_bytes()));
                         }
                     }
                     Err(f) => st.fail(f),
